@@ -303,8 +303,14 @@ def colebrook_white(re, d, k, lambda_nikuradse, max_iter, lengths, tolerance=1e-
     mask = ~np.isclose(re, 0) & ~np.isclose(lengths, 0, rtol=1e-10, atol=1e-11)
     lambda_res = lambda_nikuradse
 
+    if not np.any(mask):
+        # no branch with flow and length: the initial guess is returned for all of them
+        return True, lambda_res
+
+    # disp=False: a failed iteration is reported via the converged flag (and turned into a
+    # PipeflowNotConverged by the caller) instead of a RuntimeError in the single-branch case
     res = newton(colebrook_white_implicit, lambda_res[mask], maxiter=max_iter, args=(re[mask], k[mask], d[mask]),
-                 tol=tolerance, full_output=True, fprime=cw_derivative)  # , fprime2=cw_derivative_2)
+                 tol=tolerance, full_output=True, fprime=cw_derivative, disp=False)  # , fprime2=cw_derivative_2)
 
     if lambda_res[mask].size == 1:
         lambda_res[mask] = res[0]
